@@ -101,13 +101,35 @@ def wrap32 (v : Int) : Int :=
   let r := v % (2 ^ 32 : Int)
   if r ≥ (2 ^ 31 : Int) then r - 2 ^ 32 else r
 
-/-- cf_set_int: `none` = rejected -/
+def INT_MIN : Int := -2147483648
+def INT_MAX : Int := 2147483647
+def UINT_MAX : Nat := 4294967295
+
+/-- cf_set_int (with repair F37): `none` = rejected.  No conversion and partial parse are
+    rejected; then `errno == ERANGE || val < INT_MIN || val > INT_MAX` is rejected (the clamped
+    `long` of an overflowing strtol is outside `int` anyway). -/
 def setInt (s : Bytes) : Option Int :=
+  let l := strtoBase0 s
+  if l.consumed == 0 || l.consumed != s.length then none
+  else if l.toLong < INT_MIN || l.toLong > INT_MAX then none
+  else some l.toLong
+
+/-- cf_set_uint (with repair F37): rejected when strtoul overflows, the value is above UINT_MAX,
+    or a minus sign precedes a non-zero value -/
+def setUint (s : Bytes) : Option Nat :=
+  let l := strtoBase0 s
+  if l.consumed == 0 || l.consumed != s.length then none
+  else if l.mag > UINT_MAX || (l.neg && l.mag != 0) then none
+  else some l.mag
+
+/-- cf_set_int BEFORE repair F37: the `long` is converted to `int` unchecked (wraps), strtol's
+    ERANGE is ignored.  Kept to state what was wrong. -/
+def setIntOld (s : Bytes) : Option Int :=
   let l := strtoBase0 s
   if l.consumed == 0 || l.consumed != s.length then none else some (wrap32 l.toLong)
 
-/-- cf_set_uint -/
-def setUint (s : Bytes) : Option Nat :=
+/-- cf_set_uint BEFORE repair F37 -/
+def setUintOld (s : Bytes) : Option Nat :=
   let l := strtoBase0 s
   if l.consumed == 0 || l.consumed != s.length then none else some (l.toULong % 2 ^ 32)
 
